@@ -38,6 +38,14 @@ def run(tier, out):
             t["seed"] = ev["seed"]
             totals.append(t)
         events += totals
+        # the same after a history: a simulation switched on and off, then an edit of a carbon intensity, a PUE, a network
+        # intensity or the traffic -- each footprint must still be the energy times the intensity that applies NOW
+        n_hist = 25 if tier == "quick" else 500
+        edited = numcheck.edited_events(ns, range(base + 70000, base + 70000 + n_hist), 2,
+                                        kinds=("ci", "svci", "net", "pue", "starts"), simulate=True)
+        for e in edited:
+            e["tid"] += 3 * 10 ** 6
+        events += edited
         fails, _notes, res = numcheck.validate(wd, events, focus=FOOTPRINT_KINDS)
         out.add_tlc(res, "Trace_Numeric: footprint kinds + totals and views")
         out.traces += len(totals)
@@ -50,7 +58,9 @@ def run(tier, out):
                         "total_first_hours_mg": e["total"]["v"][:4]})
         out.extra.update({"rule": "a case = one real system built from lattice inputs: footprint values compared exactly "
                                   "with EFNumeric, total / components / views compared in mg; distinct by seed",
-                          "sharing_shapes_seen": sorted(shapes), "systems_with_totals": len(totals)})
+                          "sharing_shapes_seen": sorted(shapes), "systems_with_totals": len(totals),
+                          "models_observed_after_a_simulation_and_an_edit": len([e for e in edited if e["seq"] > 0]),
+                          "simulations_toggled_before_edits": numcheck.SKIPPED.get("simulations", 0)})
         out.assumptions += ["the hourly total is compared with the sum of components in mg with a slack of 60 mg + one per "
                             "component (the code rounds the total to 1e-4 kg)"]
         if not shapes & {"network-shared", "server-shared-by-jobs", "journey-shared-by-patterns"}:
